@@ -160,6 +160,9 @@ def _audit(c, t0, expected, rec, where):
         dup = q(f"select {a}, {b}, julian_date, count(*) from {table} group by {a}, {b}, julian_date having count(*) > 1")
         if dup:
             raise Violation("duplicate_rows", f"{where}: {table} has {dup[0][3]} rows for ({dup[0][0]}, {dup[0][1]}) at Julian date {dup[0][2]!r}")
+    dup = q("select target_id, julian_date, count(*) from detected_maneuvers group by target_id, julian_date having count(*) > 1")
+    if dup:
+        raise Violation("duplicate_rows", f"{where}: detected_maneuvers has {dup[0][2]} rows for target {dup[0][0]} at Julian date {dup[0][1]!r}")
     # completeness + values
     truth = {}
     for r in q("select agent_id, julian_date, pos_x_km, pos_y_km, pos_z_km, vel_x_km_p_sec, vel_y_km_p_sec, vel_z_km_p_sec from truth_ephemerides"):
